@@ -12,6 +12,103 @@ theorem PeerState.dialFailure_not_opening (s : PeerState) (c : ConnId) (h : s.ho
   unfold PeerState.onDialFailure
   split at h <;> simp_all
 
+theorem PeerState.dialFailure_no_dial (s : PeerState) (c : ConnId) (h : s.holdsDial c = true) (x : ConnId) :
+    (s.onDialFailure c).1.holdsDial x = false := by
+  cases s with
+  | connected r sec =>
+    cases sec with
+    | none => simp [PeerState.holdsDial] at h
+    | some y =>
+      cases y with
+      | secondary y => simp [PeerState.holdsDial] at h
+      | dialing d =>
+        simp only [PeerState.holdsDial, beq_iff_eq] at h
+        simp [PeerState.onDialFailure, h, PeerState.holdsDial]
+  | opening as y ts => simp [PeerState.holdsDial] at h
+  | dialing d =>
+    simp only [PeerState.holdsDial, beq_iff_eq] at h
+    simp [PeerState.onDialFailure, h, PeerState.holdsDial]
+  | disconnected d =>
+    cases d with
+    | none => simp [PeerState.holdsDial] at h
+    | some d =>
+      simp only [PeerState.holdsDial, beq_iff_eq] at h
+      simp [PeerState.onDialFailure, h, PeerState.holdsDial]
+
+theorem PeerState.est_of_dial_no_dial (s : PeerState) (x : ConnRecord) (h : s.holdsDial x.conn = true) (y : ConnId) :
+    (s.onConnectionEstablished x).1.holdsDial y = false := by
+  cases s with
+  | connected r sec =>
+    cases sec with
+    | none => simp [PeerState.holdsDial] at h
+    | some z =>
+      cases z with
+      | secondary z => simp [PeerState.holdsDial] at h
+      | dialing d =>
+        simp only [PeerState.holdsDial, beq_iff_eq] at h
+        simp [PeerState.onConnectionEstablished, h, PeerState.holdsDial]
+  | opening as z ts => simp [PeerState.holdsDial] at h
+  | dialing d =>
+    simp only [PeerState.holdsDial, beq_iff_eq] at h
+    simp [PeerState.onConnectionEstablished, h, PeerState.holdsDial]
+  | disconnected d =>
+    cases d with
+    | none => simp [PeerState.holdsDial] at h
+    | some d =>
+      simp only [PeerState.holdsDial, beq_iff_eq] at h
+      simp [PeerState.onConnectionEstablished, h, PeerState.holdsDial]
+
+theorem PeerState.est_dial_back (s : PeerState) (x : ConnRecord) (y : ConnId)
+    (h : (s.onConnectionEstablished x).1.holdsDial y = true) : s.holdsDial y = true := by
+  cases s with
+  | connected r sec =>
+    cases sec with
+    | none => simp [PeerState.onConnectionEstablished, PeerState.holdsDial] at h
+    | some z =>
+      cases z with
+      | secondary z => simpa [PeerState.onConnectionEstablished] using h
+      | dialing d =>
+        simp only [PeerState.onConnectionEstablished] at h
+        split at h
+        · simp [PeerState.holdsDial] at h
+        · exact h
+  | opening as z ts => simp [PeerState.onConnectionEstablished, PeerState.holdsDial] at h
+  | dialing d =>
+    simp only [PeerState.onConnectionEstablished] at h
+    split at h
+    · simp [PeerState.holdsDial] at h
+    · simpa [PeerState.holdsDial] using h
+  | disconnected d =>
+    cases d with
+    | none => simp [PeerState.onConnectionEstablished, PeerState.holdsDial] at h
+    | some d =>
+      simp only [PeerState.onConnectionEstablished] at h
+      split at h
+      · simp [PeerState.holdsDial] at h
+      · simpa [PeerState.holdsDial] using h
+
+theorem PeerState.closed_dial_back (s : PeerState) (c y : ConnId)
+    (h : (s.onConnectionClosed c).1.holdsDial y = true) : s.holdsDial y = true := by
+  cases s with
+  | connected r sec =>
+    cases sec with
+    | none =>
+      simp only [PeerState.onConnectionClosed] at h
+      split at h <;> simp [PeerState.holdsDial] at h
+    | some z =>
+      cases z with
+      | secondary z =>
+        simp only [PeerState.onConnectionClosed] at h
+        split at h
+        · simp [PeerState.holdsDial] at h
+        · split at h <;> simp [PeerState.holdsDial] at h
+      | dialing d =>
+        simp only [PeerState.onConnectionClosed] at h
+        split at h <;> simpa [PeerState.holdsDial] using h
+  | opening as z ts => simpa [PeerState.onConnectionClosed] using h
+  | dialing d => simpa [PeerState.onConnectionClosed] using h
+  | disconnected d => simpa [PeerState.onConnectionClosed] using h
+
 theorem inv05_evDialFailure {g : G} (h : Inv05 g) (c : ConnId) (a : Multiaddr) (e : DialErr)
     (hal : allowed g (.evDialFailure c a e) = true) : Inv05 (gstep g (.evDialFailure c a e)).1 := by
   simp only [allowed, Bool.and_eq_true, List.any_eq_true, beq_iff_eq] at hal
@@ -28,7 +125,7 @@ theorem inv05_evDialFailure {g : G} (h : Inv05 g) (c : ConnId) (a : Multiaddr) (
   rw [gstep_fst]
   show Inv05 (ghost g _ (onDialFailure g.m o.conn a e).1 (onDialFailure g.m o.conn a e).2)
   rw [hstep]
-  refine inv05_drop h o ho (by rw [hoph]; simp) rfl rfl rfl (.dialFailure o.conn a e) rfl rfl ?_ ?_ ?_ ?_ ?_ ?_
+  refine inv05_drop h o ho (by rw [hoph]; simp) rfl rfl rfl (.dialFailure o.conn a e) rfl rfl ?_ ?_ ?_ ?_ ?_ ?_ ?_
   · intro x; simp [reports]
   · simp [ghost]
   · intro x; show alookup x (aerase o.conn g.m.pending) = _; rw [alookup_aerase]
@@ -40,6 +137,10 @@ theorem inv05_evDialFailure {g : G} (h : Inv05 g) (c : ConnId) (a : Multiaddr) (
     show stateOf (setState (updAddrFail g.m a e) o.peer _) o.peer ≠ _
     rw [stateOf_setState, if_pos rfl, stateOf_updAddrFail]
     exact PeerState.dialFailure_not_opening _ _ hd as x ts
+  · intro x
+    show (stateOf (setState (updAddrFail g.m a e) o.peer _) o.peer).holdsDial x = false
+    rw [stateOf_setState, if_pos rfl, stateOf_updAddrFail]
+    exact PeerState.dialFailure_no_dial _ _ hd x
 
 /-! ### failure of an opening connection -/
 
@@ -59,7 +160,7 @@ theorem inv05_evOpenFailure {g : G} (h : Inv05 g) (c : ConnId) (errs : List (Mul
   rw [gstep_fst]
   show Inv05 (ghost g _ (onOpenFailure g.m o.conn errs).1 (onOpenFailure g.m o.conn errs).2)
   rw [hstep]
-  refine inv05_drop h o ho (by rw [hoph]; simp) rfl rfl rfl (.openFailure o.conn _) rfl rfl ?_ ?_ ?_ ?_ ?_ ?_
+  refine inv05_drop h o ho (by rw [hoph]; simp) rfl rfl rfl (.openFailure o.conn _) rfl rfl ?_ ?_ ?_ ?_ ?_ ?_ ?_
   · intro x; simp [reports]
   · simp [ghost]
   · intro x; show alookup x (aerase o.conn g.m.pending) = _; rw [alookup_aerase]
@@ -70,6 +171,9 @@ theorem inv05_evOpenFailure {g : G} (h : Inv05 g) (c : ConnId) (errs : List (Mul
   · intro as' x ts
     show stateOf (setState (updAddrFails g.m errs) o.peer _) o.peer ≠ _
     rw [stateOf_setState, if_pos rfl]; simp
+  · intro x
+    show (stateOf (setState (updAddrFails g.m errs) o.peer _) o.peer).holdsDial x = false
+    rw [stateOf_setState, if_pos rfl]; simp [PeerState.holdsDial]
 
 
 /-! ### an opening connection reaches its socket -/
@@ -95,7 +199,7 @@ theorem inv05_evOpened {g : G} (h : Inv05 g) (c : ConnId) (a : Multiaddr) (errs 
   show Inv05 (ghost g _ (onOpened g.m o.conn a errs).1 (onOpened g.m o.conn a errs).2)
   rw [hstep]
   refine inv05_rephase h o ⟨o.conn, .dialing, o.peer⟩ ho (by rw [hoph]; simp) rfl rfl ?_ rfl rfl ?_ ?_
-    ?_ ?_ ?_ ?_ ?_ ?_ ?_ ?_
+    ?_ ?_ ?_ ?_ ?_ ?_ ?_ ?_ ?_
   · show (ghost g (.evOpened o.conn a errs) _ _).owed = _
     simp only [ghost, List.filterMap_cons, List.filterMap_nil]
     rw [dropOwed_idem, owedPeer_of_mem h.nodup ho]
@@ -119,6 +223,12 @@ theorem inv05_evOpened {g : G} (h : Inv05 g) (c : ConnId) (a : Multiaddr) (errs 
   · intro as' x ts
     show stateOf (setState (updAddr (openedPre g.m o.conn errs) o.peer _ _) o.peer _) o.peer ≠ _
     rw [stateOf_setState, if_pos rfl]; simp
+  · intro x hx
+    have : (stateOf (setState (updAddr (openedPre g.m o.conn errs) o.peer (addrNew o.peer a) scoreEstablished) o.peer
+        (.dialing (ConnRecord.new o.peer a o.conn))) o.peer).holdsDial x = true := hx
+    rw [stateOf_setState, if_pos rfl] at this
+    simp only [PeerState.holdsDial, ConnRecord.new, beq_iff_eq] at this
+    exact ⟨this.symm, rfl⟩
 
 /-! ### a pending accept resolves -/
 
@@ -245,7 +355,7 @@ theorem inv05_est_dialer {g : G} (h : Inv05 g) (p : Peer) (ep : Endpoint) (hd : 
       simp [hp', hcan, hest, hcc, hepo, estPre_pending]
     rw [hstep]
     refine inv05_rephase h ⟨ep.conn, .dialing, p⟩ ⟨ep.conn, .accepting, p⟩ ho (by simp) rfl rfl ?_ ?_ ?_ ?_
-      ?_ ?_ ?_ ?_ ?_ ?_ ?_ ?_ ?_
+      ?_ ?_ ?_ ?_ ?_ ?_ ?_ ?_ ?_ ?_
     · simp [ghost, cancelled]
     · simp [ghost, cancelled, recarry_nil]
     · simpa [ghost] using hfr
@@ -272,6 +382,13 @@ theorem inv05_est_dialer {g : G} (h : Inv05 g) (p : Peer) (ep : Endpoint) (hd : 
       show stateOf (setState (estPre g.m p ep) p _) p ≠ _
       rw [stateOf_setState, if_pos rfl]
       exact PeerState.est_accepted_not_opening _ _ hest as x ts
+    · intro x hx
+      rw [ghost_m] at hx
+      have : (stateOf (setState (estPre g.m p ep) p
+          ((stateOf g.m p).onConnectionEstablished (ConnRecord.new p ep.addr ep.conn)).1) p).holdsDial x = true := hx
+      rw [stateOf_setState, if_pos rfl,
+        PeerState.est_of_dial_no_dial _ (ConnRecord.new p ep.addr ep.conn) hdial' x] at this
+      cases this
   · -- rejected by the limits: the attempt ends with a dial failure (fix for finding (d))
     have hstep : onEstablished g.m p ep true =
         (setState (estPre g.m p ep) p ((stateOf g.m p).onDialFailure ep.conn).1,
@@ -280,7 +397,7 @@ theorem inv05_est_dialer {g : G} (h : Inv05 g) (p : Peer) (ep : Endpoint) (hd : 
       simp [hp', hcan]
     rw [hstep]
     refine inv05_drop h ⟨ep.conn, .dialing, p⟩ ho (by simp) ?_ ?_ ?_ (.dialFailure ep.conn ep.addr .negotiation)
-      ?_ rfl ?_ ?_ ?_ ?_ ?_ ?_
+      ?_ rfl ?_ ?_ ?_ ?_ ?_ ?_ ?_
     · simp [ghost, cancelled]
     · simp [ghost, cancelled]
     · simpa [ghost] using hfr
@@ -301,6 +418,11 @@ theorem inv05_est_dialer {g : G} (h : Inv05 g) (p : Peer) (ep : Endpoint) (hd : 
       show stateOf (setState (estPre g.m p ep) p _) p ≠ _
       rw [stateOf_setState, if_pos rfl]
       exact PeerState.dialFailure_not_opening _ _ hdial' as x ts
+    · intro x
+      rw [ghost_m]
+      show (stateOf (setState (estPre g.m p ep) p _) p).holdsDial x = false
+      rw [stateOf_setState, if_pos rfl]
+      exact PeerState.dialFailure_no_dial _ _ hdial' x
 
 
 theorem inv05_est_listener {g : G} (h : Inv05 g) (p : Peer) (ep : Endpoint) (hd : ep.isListener = true)
@@ -318,7 +440,7 @@ theorem inv05_est_listener {g : G} (h : Inv05 g) (p : Peer) (ep : Endpoint) (hd 
   have hrefuse : onEstablished g.m p ep true = (estPre g.m p ep, { calls := [.reject ep.conn] }) →
       Inv05 (ghost g (.evEstablished p ep true) (onEstablished g.m p ep true).1 (onEstablished g.m p ep true).2) := by
     intro hstep; rw [hstep]
-    refine inv05_frame h ?_ ?_ [] ?_ (by simp) ?_ ?_ ?_ ?_ ?_ ?_
+    refine inv05_frame h ?_ ?_ [] ?_ (by simp) ?_ ?_ ?_ ?_ ?_ ?_ ?_
     · simp [ghost, cancelled, hdrop]
     · simp [ghost, cancelled]
     · simp [ghost]
@@ -330,6 +452,7 @@ theorem inv05_est_listener {g : G} (h : Inv05 g) (p : Peer) (ep : Endpoint) (hd 
     · rw [ghost_m]; simp
     · intro q as x ts; rw [ghost_m, estPre_state]
     · intro q x hx; rw [ghost_m, estPre_state]; exact hx
+    · intro q x hx; rw [ghost_m, estPre_state] at hx; exact hx
   by_cases hcan : g.m.limits.canAccept ep.isListener = true
   · by_cases hest : ((stateOf g.m p).onConnectionEstablished (ConnRecord.new p ep.addr ep.conn)).2 = true
     · by_cases hop : ∃ as c0 ts, stateOf g.m p = .opening as c0 ts
@@ -351,7 +474,7 @@ theorem inv05_est_listener {g : G} (h : Inv05 g) (p : Peer) (ep : Endpoint) (hd 
           unfold onEstablished
           simp [hpn, hcan, estPre_pending, hs, cancelCalls, erasePrevOpening, PeerState.onConnectionEstablished]
         rw [hstep]
-        refine inv05_supersede h ep.conn c0 p hc ho0 ?_ ?_ ?_ ?_ ?_ ?_ ?_ ?_ ?_ ?_
+        refine inv05_supersede h ep.conn c0 p hc ho0 ?_ ?_ ?_ ?_ ?_ ?_ ?_ ?_ ?_ ?_ ?_
         · simp [ghost, cancelled, hdrop]
         · simp [ghost, cancelled]
         · simp [ghost, cancelled]
@@ -371,6 +494,10 @@ theorem inv05_est_listener {g : G} (h : Inv05 g) (p : Peer) (ep : Endpoint) (hd 
           show stateOf (setState (estPre g.m p ep) p _) p ≠ _
           rw [stateOf_setState, if_pos rfl]
           exact PeerState.est_accepted_not_opening _ _ hest as2 x ts2
+        · intro x; rw [ghost_m]
+          show (stateOf (setState (estPre g.m p ep) p _) p).holdsDial x = false
+          rw [stateOf_setState, if_pos rfl, hs]
+          simp [PeerState.onConnectionEstablished, PeerState.holdsDial]
       · -- plain accept
         have hnotopen : ∀ as c ts, stateOf g.m p ≠ .opening as c ts :=
           fun as c ts hs => hop ⟨as, c, ts, hs⟩
@@ -385,7 +512,7 @@ theorem inv05_est_listener {g : G} (h : Inv05 g) (p : Peer) (ep : Endpoint) (hd 
           unfold onEstablished
           simp [hpn, hcan, hest, hcc, hepo, estPre_pending]
         rw [hstep]
-        refine inv05_inbound h ep.conn p hc ?_ ?_ ?_ ?_ ?_ ?_ ?_ ?_ ?_ ?_
+        refine inv05_inbound h ep.conn p hc ?_ ?_ ?_ ?_ ?_ ?_ ?_ ?_ ?_ ?_ ?_
         · simp [ghost, cancelled, hdrop]
         · simp [ghost, cancelled, recarry_nil]
         · simp [ghost, cancelled]
@@ -410,6 +537,13 @@ theorem inv05_est_listener {g : G} (h : Inv05 g) (p : Peer) (ep : Endpoint) (hd 
           · rename_i hq; subst hq
             exact PeerState.est_keeps_dial _ _ _ hdial hx
           · rw [estPre_state]; exact hdial
+        · intro q x hdial; rw [ghost_m] at hdial
+          have : (stateOf (setState (estPre g.m p ep) p
+              ((stateOf g.m p).onConnectionEstablished (ConnRecord.new p ep.addr ep.conn)).1) q).holdsDial x = true := hdial
+          rw [stateOf_setState] at this; split at this
+          · rename_i hq; subst hq
+            exact PeerState.est_dial_back _ _ _ this
+          · rw [estPre_state] at this; exact this
     · apply hrefuse
       unfold onEstablished
       simp [hpn, hcan, hest]
@@ -427,6 +561,7 @@ theorem inv05_same {g : G} (h : Inv05 g) (g' : G) (howed : g'.owed = g.owed) (hl
   inv05_frame h howed hled [] (by rw [hlog]; simp) (by simp) hnc
     (fun c hc => Or.inl (hfresh ▸ hc)) (fun c => by rw [hpend]) hpa
     (fun q as c ts => by rw [hst]) (fun q c hc => by rw [hst]; exact hc)
+    (fun q c hc => by rw [hst] at hc; exact hc)
 
 theorem inv05_dial {g : G} (h : Inv05 g) (p : Peer) (ch : List Multiaddr) :
     Inv05 (gstep g (.dial p ch)).1 := by
@@ -511,7 +646,7 @@ theorem inv05_evClosed {g : G} (h : Inv05 g) (p : Peer) (c : ConnId) : Inv05 (gs
   rw [gstep_fst]
   show Inv05 (ghost g _ (onClosed g.m p c).1 (onClosed g.m p c).2)
   refine inv05_frame h rfl rfl (closeConn g.m p c).2 rfl ?_ (Nat.le_refl _) (fun x hx => Or.inl hx)
-    (fun x => rfl) rfl ?_ ?_
+    (fun x => rfl) rfl ?_ ?_ ?_
   · intro e he
     unfold closeConn at he
     simp only at he
@@ -528,6 +663,11 @@ theorem inv05_evClosed {g : G} (h : Inv05 g) (p : Peer) (c : ConnId) : Inv05 (gs
     rw [closeConn_state]; split
     · rename_i hq; subst hq; exact closed_keeps_dial _ _ _ hx
     · exact hx
+  · intro q x hx
+    have : (stateOf (closeConn g.m p c).1 q).holdsDial x = true := hx
+    rw [closeConn_state] at this; split at this
+    · rename_i hq; subst hq; exact PeerState.closed_dial_back _ _ _ this
+    · exact this
 
 /-- **Preservation of the C05 invariant by every step the environment contract allows.** -/
 theorem inv05_step {g : G} (h : Inv05 g) (i : In) (hal : allowed g i = true) : Inv05 (gstep g i).1 := by
@@ -545,7 +685,7 @@ theorem inv05_step {g : G} (h : Inv05 g) (i : In) (hal : allowed g i = true) : I
   | alloc =>
     rw [gstep_fst]
     refine inv05_frame h rfl rfl [] ?_ (by simp) ?_ ?_ (fun x => rfl) rfl (fun q as x ts => Iff.rfl)
-      (fun q x hx => hx)
+      (fun q x hx => hx) (fun q x hx => hx)
     · simp [ghost, step]
     · rw [ghost_m]; exact Nat.le_succ _
     · intro x hx
